@@ -107,6 +107,8 @@ class FLPSpec(SelSpec):
         locs = torch.tensor([inst["locs"]], dtype=torch.float32)
         n = locs.shape[1]
         dist = (locs[:, :, None, :] - locs[:, None, :, :]).norm(p=2, dim=-1)
+        if "gen_orig_distances" in inst:  # generator-made instance: the generator's own distance matrix, verbatim
+            dist = torch.tensor([inst["gen_orig_distances"]], dtype=torch.float32)
         return TensorDict(
             dict(locs=locs, orig_distances=dist, distances=torch.full((1, n), math.sqrt(2.0)), chosen=torch.zeros(1, n, dtype=torch.bool), to_choose=torch.tensor([int(inst["to_choose"])], dtype=torch.long)),
             batch_size=[1],
@@ -130,6 +132,14 @@ class FLPSpec(SelSpec):
         for j in range(2):
             locs = torch.rand(5, 2, generator=g).tolist()
             out.append((f"gen5-s{seed}-{j}", dict(locs=locs, to_choose=2 + j)))
+        # instances exactly as the library's generator emits them under a documented unbounded location sampler
+        from rl4co.envs.graph.flp.generator import FLPGenerator
+
+        with torch.random.fork_rng():
+            for j, dk in enumerate([dict(loc_distribution="normal", loc_mean=0.5, loc_std=0.5), dict(loc_distribution="normal", loc_mean=0.0, loc_std=1.0)]):
+                torch.manual_seed(7100 + 31 * seed + j)
+                td = FLPGenerator(num_loc=5, to_choose=2, **dk)(1)
+                out.append((f"gen5-normal-s{seed}-{j}", dict(locs=td["locs"][0].tolist(), to_choose=2, gen_orig_distances=td["orig_distances"][0].tolist())))
         return out
 
     # ground truth
